@@ -33,14 +33,43 @@ ASSUMPTIONS = [
 TRUSTED = ["harness/shim (draw logging of the rebuilt engine)", "LibRDEngine marshalling (build_*_matrix; C01/C19)"]
 
 
-def conservation_vectors(arr):
+def parse_side(txt, labels):
+    v = [0] * len(labels)
+    for term in txt.split("+"):
+        term = term.strip()
+        if not term:
+            continue
+        parts = term.split()
+        coef, lab = (int(parts[0]), parts[1]) if len(parts) == 2 else (1, parts[0])
+        v[labels.index(lab)] += coef
+    return v
+
+
+def true_sto(net):
+    """net stoichiometric matrix (species-major, forward and reverse direction of every reaction) read from the
+    equation texts of the generated network — independent of the repository's parser and matrices"""
+    labels = [s["label"] for s in net["species"]]
+    cols = []
+    for r in net["reactions"]:
+        l, rr = r["eq"].split("->")
+        a, b = parse_side(l, labels), parse_side(rr, labels)
+        cols.append([y - x for x, y in zip(a, b)])
+        cols.append([x - y for x, y in zip(a, b)])
+    nr = len(cols)
+    return [cols[r][s] for s in range(len(labels)) for r in range(nr)], nr
+
+
+def conservation_vectors(arr, net=None):
     """integer vectors c with c . sto[:, r] = 0 for every r and c_s = 0 for every species chemostated anywhere"""
     ns, nr = arr["ns"], arr["nr"]
     n = len(arr["chem"]) // ns if ns else 0
     free = [s for s in range(ns) if not any(arr["chem"][s * n + i] for i in range(n))]
     if not free:
         return [], free
-    sub = [arr["sto"][s * nr + r] for s in free for r in range(nr)]
+    sto = arr["sto"]
+    if net is not None:
+        sto, nr = true_sto(net)
+    sub = [sto[s * nr + r] for s in free for r in range(nr)]
     basis = stoch_gen.left_null_space(sub, len(free), nr)
     out = []
     for b in basis:
@@ -62,7 +91,7 @@ def gen_case(ctx, k):
     # conservative networks are the interesting ones: prefer isomerisations / bindings, low chemostat rate
     net = stoch_gen.rand_network(rng, nenv=nenv, max_order=3, chem_p=0.1,
                                  nr=rng.choice([0, 1, 1, 2, 2, 3]))
-    if rng.random() < 0.5:
+    if rng.random() < 0.7:
         # replace the reactions by mass-conserving ones (A -> B, A + B -> C, 2 A -> B ...) so that non-trivial laws exist
         labs = [s["label"] for s in net["species"]]
         reacs = []
@@ -132,7 +161,7 @@ def run(ctx):
         for option in ("euler", "tauleap", "gillespie"):
             c = dict(b)
             c["option"] = option
-            c["dt"] = 1 / 1024 if option == "euler" else 1 / 64
+            c["dt"] = 1 / 1024 if option == "euler" else 1 / 2048
             c["max_iter"] = {"euler": ctx.n(60, 400), "tauleap": ctx.n(25, 200), "gillespie": ctx.n(150, 3000)}[option]
             cases.append(c)
     per_script_model = ctx.n(12, 60)
@@ -156,7 +185,7 @@ def run(ctx):
             arr = res["arr"]
             ns = arr["ns"]
             n = len(arr["chem"]) // ns
-            vectors, free = conservation_vectors(arr)
+            vectors, free = conservation_vectors(arr, case["net"])
             ctx.count("scripts_" + option)
             ctx.count("space_" + case["kind"])
             ctx.count("vectors_%d" % min(len(vectors), 4))
@@ -280,6 +309,6 @@ def replay(ctx, rec):
     arr = res["arr"]
     ns = arr["ns"]
     n = len(arr["chem"]) // ns
-    vectors, _ = conservation_vectors(arr)
+    vectors, _ = conservation_vectors(arr, base["net"])
     check_totals(c, base, res, vectors, n, ns)
     return (not c.v), {"case": base, "vectors": vectors, "failures": c.v}
